@@ -41,7 +41,7 @@ def sample(ctx, scns):
     rng = random.Random(ctx.seed)
     keep, rest = [], []
     for s in scns:
-        special = len(s["kinds"]) <= 2 and any(k in ("sdben", "nest3sd", "diesd") for k in s["kinds"])
+        special = len(s["kinds"]) <= 2 and any(k in ("sdben", "nest3sd", "diesd", "nestcreate", "nestcreate2") for k in s["kinds"])
         (keep if (s["start"] != "ok" or s["setup"] == "matrix" or len(s["kinds"]) == 1 or special) else rest).append(s)
     rng.shuffle(rest)
     return sorted(keep + rest[:2200], key=lambda s: s["id"])
